@@ -55,6 +55,29 @@ pub fn panic_root(msg: &str) -> String {
     format!("{}@{}", head.replace(' ', "_"), file)
 }
 
+/// Is there a field or variant whose name gives a case rule nothing to work with (only underscores, or a non-ASCII
+/// first letter) and which has no explicit `rename` of its own?
+fn unrenamed_awkward_name(di: &syn::DeriveInput) -> bool {
+    fn awkward(id: &syn::Ident) -> bool {
+        let s = id.to_string();
+        let s = s.trim_start_matches("r#");
+        let t = s.trim_start_matches('_');
+        t.is_empty() || !t.chars().next().map(|c| c.is_ascii()).unwrap_or(true)
+    }
+    fn renamed(attrs: &[syn::Attribute]) -> bool {
+        attrs.iter().any(|a| {
+            let txt = quote::quote!(#a).to_string();
+            a.path().is_ident("darling") && txt.replace("rename_all", "").contains("rename")
+        })
+    }
+    let fields = |fs: &syn::Fields| fs.iter().any(|f| f.ident.as_ref().map(|i| awkward(i) && !renamed(&f.attrs)).unwrap_or(false));
+    match &di.data {
+        syn::Data::Struct(s) => fields(&s.fields),
+        syn::Data::Enum(e) => e.variants.iter().any(|v| (awkward(&v.ident) && !renamed(&v.attrs)) || fields(&v.fields)),
+        syn::Data::Union(u) => u.fields.named.iter().any(|f| f.ident.as_ref().map(|i| awkward(i) && !renamed(&f.attrs)).unwrap_or(false)),
+    }
+}
+
 pub struct Verdict {
     pub impls: usize,
     pub errors: usize,
@@ -64,12 +87,15 @@ pub struct Verdict {
 pub fn check_one(tr: &str, di: &syn::DeriveInput, src_len: usize) -> Result<Verdict, Fail> {
     let out = match catch(|| derive(tr, di)) {
         Ok(ts) => ts,
-        Err(p) => fail!(
-            format!("c06:panic:{}", panic_root(&p)),
-            "derive({}) panicked: {}",
-            tr,
-            p
-        ),
+        Err(p) => {
+            let mut root = panic_root(&p);
+            // the known finding is about names the case rule has to be applied to; a field that carries its own
+            // `rename` never needs the rule, so a panic there is something else
+            if root.starts_with("string-slice-in-ident_case") && !unrenamed_awkward_name(di) {
+                root = "string-slice-in-ident_case@although-every-awkward-name-is-renamed".to_string();
+            }
+            fail!(format!("c06:panic:{}", root), "derive({}) panicked: {}", tr, p)
+        }
     };
     let ces = compile_errors(out.clone());
     let file: syn::File = match syn::parse2(out.clone()) {
